@@ -384,21 +384,24 @@ static std::string step(const Toks& t)
 		struct stat sb;
 		return b01(ok) + " " + rawStr(2) + " src=" + b01(stat(pathOf(0).c_str(), &sb) == 0);
 	}
-	if (op == "xput" && t.size() == 3) {
-		if (!parseBytes(t[2], bs)) return "bad-op";
-		const std::string& api = t[1];
+	if ((op == "xput" && t.size() == 3) || (op == "xseq" && t.size() == 5)) {
+		// one writer (xput) or two writers in a row (xseq) on a fresh path, then the three views of the file
 		unlink(pathOf(0).c_str());
-		Exact e(bs);
-		if (api == "put") File(P(0)).put(ByteArray((const byte*)e.p, (int)e.n));
-		else if (api == "tput") TextFile(P(0)).put(S(e));
-		else if (api == "tapp") TextFile(P(0)).append(S(e));
-		else if (api == "fw") { File f(P(0), File::WRITE); if (!f) return "err open"; f.write(e.p, (int)e.n); }
-		else if (api == "fa") { File f(P(0), File::APPEND); if (!f) return "err open"; f.write(e.p, (int)e.n); }
-		else if (api == "fsb") { File f(P(0), File::WRITE); if (!f) return "err open"; f << ByteArray((const byte*)e.p, (int)e.n); }
-		else if (api == "fss") { File f(P(0), File::WRITE); if (!f) return "err open"; f << S(e); }
-		else if (api == "tw") { TextFile f(P(0), File::WRITE); if (!f) return "err open"; f.write(S(e)); }
-		else if (api == "ts") { TextFile f(P(0), File::WRITE); if (!f) return "err open"; f << S(e); }
-		else return "bad-op";
+		for (size_t k = 1; k + 1 < t.size(); k += 2) {
+			if (!parseBytes(t[k + 1], bs)) return "bad-op";
+			const std::string& api = t[k];
+			Exact e(bs);
+			if (api == "put") File(P(0)).put(ByteArray((const byte*)e.p, (int)e.n));
+			else if (api == "tput") TextFile(P(0)).put(S(e));
+			else if (api == "tapp") TextFile(P(0)).append(S(e));
+			else if (api == "fw") { File f(P(0), File::WRITE); if (!f) return "err open"; f.write(e.p, (int)e.n); }
+			else if (api == "fa") { File f(P(0), File::APPEND); if (!f) return "err open"; f.write(e.p, (int)e.n); }
+			else if (api == "fsb") { File f(P(0), File::WRITE); if (!f) return "err open"; f << ByteArray((const byte*)e.p, (int)e.n); }
+			else if (api == "fss") { File f(P(0), File::WRITE); if (!f) return "err open"; f << S(e); }
+			else if (api == "tw") { TextFile f(P(0), File::WRITE); if (!f) return "err open"; f.write(S(e)); }
+			else if (api == "ts") { TextFile f(P(0), File::WRITE); if (!f) return "err open"; f << S(e); }
+			else return "bad-op";
+		}
 		Long sz = File(P(0)).size();
 		ByteArray c = File(P(0)).content();
 		std::string raw;
